@@ -76,8 +76,8 @@ class AlignedRead:
 
     def distance(self, other) -> int:
         return max(
-            other.reference_end - self.reference_start,
             other.reference_start - self.reference_end,
+            self.reference_start - other.reference_end,
             0,
         )
 
